@@ -44,6 +44,27 @@ def gen_texts(rng, tier):
         blocks = [b[0] for b in c18.mixed_blocks(rng, d, 2, rng.choice([0, 2, 4]))]
         for b in blocks[:4]:
             texts.append(('a2ml-ifdata', c18.document(a2ml, [b])))
+    # strings inside repeated members of an A2ML definition: quoted, as a bare identifier, longer than char[n] - at every
+    # position of the repetition (the two modes differ here by design: non-strict accepts with a warning)
+    defs = [('taggedstruct { "NAMES" (char[8])*; "N" uint; }', 'NAMES %s N 3'),
+            ('taggedstruct { block "ENTRIES" (struct { char[8]; uint; })*; }', '/begin ENTRIES %s /end ENTRIES'),
+            ('struct { uint; taggedstruct { ("T" char[4])*; }; }', '7 %s'),
+            ('taggedstruct { ("G" struct { char[5]; char[5]; })*; }', '%s')]
+    good, ident, long_ = ['"ab"', '"x y"', '""'], ['bare', 'id_2'], ['"much too long for this"']
+    for di, (body, frame) in enumerate(defs):
+        for trial in range(6 if tier == 'quick' else 60):
+            items = [rng.choice(good) for _ in range(rng.randrange(1, 5))]
+            k = rng.randrange(len(items))
+            items[k] = rng.choice(ident + long_ + good)
+            if di == 1:
+                inner = ' '.join('%s %d' % (x, j) for j, x in enumerate(items))
+            elif di == 2:
+                inner = ' '.join('T %s' % x for x in items)
+            elif di == 3:
+                inner = ' '.join('G %s %s' % (x, rng.choice(good)) for x in items)
+            else:
+                inner = ' '.join(items)
+            texts.append(('a2ml-strings', c18.document('block "IF_DATA" ' + body + ';', ['/begin IF_DATA ' + (frame % inner) + ' /end IF_DATA'])))
     # token-level mutations of valid documents
     m = 80 if tier == 'quick' else 15000
     for i in range(m):
